@@ -21,8 +21,8 @@ def heap_replay(prop, path, scratch):
         if p.returncode != 0:
             return 2
         mod = "---- MODULE MC ----\nEXTENDS HeapTrace\nmcLits == <<>>\n====\n"
-        cfg = ('CONSTANTS\n NKeys = 4\n Lits <- mcLits\n TraceFile = "%s"\nSPECIFICATION TraceSpec\nINVARIANT TraceInv\nCONSTRAINT Mark\n'
-               'POSTCONDITION TraceAccepted\nCHECK_DEADLOCK FALSE\n' % new)
+        cfg = ('CONSTANTS\n NKeys = %d\n Lits <- mcLits\n TraceFile = "%s"\nSPECIFICATION TraceSpec\nCONSTRAINT Mark\n'
+               'POSTCONDITION TraceAccepted\nCHECK_DEADLOCK FALSE\n' % (v.get("nkeys", 4), new))
         res = run_tlc(scratch, prop + "-replay", mod, cfg, ["Heap.tla", "HeapTrace.tla"], 900, workers=1, heap="8g")
         if res["ok"]:
             print("replay: the re-executed program is accepted by HeapTrace.tla on this tree")
